@@ -459,14 +459,16 @@ def run_e2e_program(chk, pi, worlds, judge, stats, neg=False):
             judge.add({"t": "reach", "expect": e, "got": got[k]}, det)
             stats["e2e_refs"] += 1
     # symbol tables of the per-package objects of this build
-    objs = glob.glob(os.path.join(d, "tmp", "*.o"))
+    tables = nm_objects(sorted(glob.glob(os.path.join(d, "tmp", "*.o"))))
+    have = {n for _, syms in tables for n, t, _ in syms if t.isupper() and n.endswith(".init")}
     cache = C.llgo_env("O0", d)["XDG_CACHE_HOME"]
     for w in worlds:
         for p in w.pkgs:
-            for a in glob.glob(os.path.join(cache, "llgo", "build", "*", w.path[p], "*.a")):
-                if os.path.getmtime(a) >= t0 - 1:
-                    objs.append(a)
-    tables = nm_objects(sorted(objs))
+            if w.path[p] + ".init" in have:
+                continue        # compiled by this build: its object is in the build's private TMPDIR
+            arch = sorted(glob.glob(os.path.join(cache, "llgo", "build", "*", w.path[p], "*.a")), key=os.path.getmtime)
+            if arch:            # served from the check's private cache: the archive an earlier identical build left
+                tables += nm_objects(arch[-1:])
     seen_tables = set()
     defs = collections.defaultdict(list)
     for member, syms in tables:
@@ -514,7 +516,7 @@ def check(chk):
     stats["llgo_build_s"] = []
     stats["e2e_died"] = []
     # worlds: the same references rendered in different layouts
-    n_ip = 24 if thorough else 4
+    n_ip = 24 if thorough else 3
     ip_worlds = []
     for i in range(n_ip):
         v = dict(VARIANTS[i % len(VARIANTS)])
@@ -531,7 +533,9 @@ def check(chk):
         ws = []
         for j in range(per_prog):
             v = dict(VARIANTS[(pi * per_prog + j + sd) % len(VARIANTS)])
-            ws.append(G.World("g%d" % j, refs, "%d/e%d/%d" % (sd, pi, j), v))
+            # the group id is part of every package path: unique per tier / seed / program, so that the private build
+            # cache holds at most one archive per package path of a given generator version
+            ws.append(G.World("%s%dg%dx%d" % (chk.tier[0], sd, pi, j), refs, "%d/e%d/%d" % (sd, pi, j), v))
         programs.append(ws)
     judge = Judge()
     with ThreadPoolExecutor(max_workers=2) as ex:
